@@ -4,7 +4,7 @@ package lib
 // A state is the history reaching it; successors are built by replaying history+op on a fresh instance (Canon does
 // that); two histories are merged only when Canon returns the same key.
 type BFSConfig[Op any] struct {
-	Alphabet  func(h []Op) []Op  // enabled operations in the state reached by h, simplest first
+	Alphabet  func(h []Op) []Op   // enabled operations in the state reached by h, simplest first
 	Canon     func(h []Op) string // build fresh instance, replay h, dump canonical state ("" = prune: invalid history)
 	Visit     func(h []Op)        // invariant / observer battery, evaluated once per distinct state
 	MaxDepth  int                 // 0 = unbounded (fixed point)
